@@ -1294,12 +1294,38 @@ impl C16 {
         let mut model: Vec<i64> = Vec::new();
         let mut log = Vec::new();
         let id = |t: &Table| t.get("id").and_then(|i| i.as_integer()).unwrap_or(i64::MIN);
+        // half of the histories start from elements that were parsed (they remember where they
+        // stood in their document, which decides where `[[t]]` sections are printed and nothing else)
+        let mut positions_disagree = false;
+        if rng.coin() {
+            let k = 1 + rng.below(5);
+            let text: String = (0..k).map(|i| format!("[[t]]\nid = {}\n", -(i as i64) - 1)).collect();
+            if let Ok(mut doc) = text.parse::<toml_edit::DocumentMut>() {
+                if let Some(Item::ArrayOfTables(a)) = doc.remove("t") {
+                    aot = a;
+                    model = (0..k).map(|i| -(i as i64) - 1).collect();
+                    log.push(format!("parsed {k} elements"));
+                }
+            }
+        }
         for step in 0..n {
             let c = step as i64 + 1;
             let len = model.len();
-            let choice = rng.below(8);
+            let choice = rng.below(9);
             let name;
             let r = match choice {
+                8 if len > 1 => {
+                    name = "remove(0) + push";
+                    let first = model.remove(0);
+                    model.push(first);
+                    positions_disagree = true;
+                    guarded(|| {
+                        if let Some(t) = aot.get(0).cloned() {
+                            aot.remove(0);
+                            aot.push(t);
+                        }
+                    })
+                }
                 0 | 1 | 2 => {
                     name = "push";
                     model.push(c);
@@ -1365,7 +1391,32 @@ impl C16 {
                 ctx.violation(&format!("state-differs:ArrayOfTables:{name}"), format!("after {log:?}: iter() = {got:?}, len {}, get = {gets:?}; reference vector {model:?}", aot.len()));
                 return;
             }
-            if !model.is_empty() {
+            // the same sequence through the consuming ways out
+            let r2 = guarded(|| {
+                let by_into_iter: Vec<i64> = aot.clone().into_iter().map(|t| id(&t)).collect();
+                let inline_id = |v: &Value| v.as_inline_table().and_then(|t| t.get("id")).and_then(|v| v.as_integer()).unwrap_or(i64::MIN);
+                let by_into_array: Vec<i64> = aot.clone().into_array().iter().map(inline_id).collect();
+                let by_into_value: Vec<i64> = Item::ArrayOfTables(aot.clone()).into_value().ok().and_then(|v| v.as_array().map(|a| a.iter().map(inline_id).collect())).unwrap_or_default();
+                let mut it = Item::ArrayOfTables(aot.clone());
+                it.make_value();
+                let by_make_value: Vec<i64> = it.as_array().map(|a| a.iter().map(inline_id).collect()).unwrap_or_default();
+                [("into_iter", by_into_iter), ("into_array", by_into_array), ("Item::into_value", by_into_value), ("Item::make_value", by_make_value)]
+            });
+            match r2 {
+                Err((loc, msg)) => {
+                    ctx.violation(&format!("panic:{}", crate::short_loc(&loc)), format!("consuming an ArrayOfTables panicked at {loc}: {msg}"));
+                    return;
+                }
+                Ok(ways) => {
+                    for (way, seq) in ways {
+                        if seq != model {
+                            ctx.violation(&format!("state-differs:ArrayOfTables:{way}"), format!("after {log:?}: {way} yields {seq:?}; reference vector {model:?}"));
+                            return;
+                        }
+                    }
+                }
+            }
+            if !model.is_empty() && !positions_disagree {
                 let mut root = Table::new();
                 root.insert("t", Item::ArrayOfTables(aot.clone()));
                 let doc: toml_edit::DocumentMut = root.into();
@@ -1387,6 +1438,156 @@ impl C16 {
     }
 }
 
+// ------------------------------------------------------------------ sorting through dotted children
+
+/// a table whose children are leaves, dotted tables (`a.b = 1`: part of the parent's key/value
+/// pairs, so sorting the parent sorts them too) or tables of their own (left alone)
+#[derive(Clone, Debug, PartialEq)]
+enum DT {
+    Leaf(i64),
+    Dotted(Vec<(String, DT)>),
+    Own(Vec<(String, DT)>),
+}
+
+fn gen_dt(rng: &mut Rng, depth: usize, counter: &mut i64) -> Vec<(String, DT)> {
+    let mut keys = vec!["m", "z", "a", "q", "b"];
+    rng.shuffle(&mut keys);
+    let n = rng.below(5);
+    let mut out = Vec::new();
+    for k in keys.into_iter().take(n) {
+        *counter += 1;
+        let v = match rng.below(6) {
+            0 | 1 if depth < 3 => DT::Dotted(gen_dt(rng, depth + 1, counter)),
+            2 if depth < 3 => DT::Own(gen_dt(rng, depth + 1, counter)),
+            _ => DT::Leaf(*counter),
+        };
+        out.push((k.to_string(), v));
+    }
+    out
+}
+
+fn dt_table(e: &[(String, DT)], dotted: bool) -> Table {
+    let mut t = Table::new();
+    t.set_dotted(dotted);
+    for (k, v) in e {
+        let item = match v {
+            DT::Leaf(i) => toml_edit::value(*i),
+            DT::Dotted(c) => Item::Table(dt_table(c, true)),
+            DT::Own(c) => Item::Table(dt_table(c, false)),
+        };
+        t.insert(k, item);
+    }
+    t
+}
+
+fn dt_inline(e: &[(String, DT)], dotted: bool) -> InlineTable {
+    let mut t = InlineTable::new();
+    t.set_dotted(dotted);
+    for (k, v) in e {
+        let val = match v {
+            DT::Leaf(i) => Value::from(*i),
+            DT::Dotted(c) => Value::InlineTable(dt_inline(c, true)),
+            DT::Own(c) => Value::InlineTable(dt_inline(c, false)),
+        };
+        t.insert(k, val);
+    }
+    t
+}
+
+fn dt_of_table(t: &Table) -> Vec<(String, DT)> {
+    t.iter()
+        .map(|(k, v)| {
+            let v = match v {
+                Item::Table(c) if c.is_dotted() => DT::Dotted(dt_of_table(c)),
+                Item::Table(c) => DT::Own(dt_of_table(c)),
+                other => DT::Leaf(other.as_integer().unwrap_or(i64::MIN)),
+            };
+            (k.to_string(), v)
+        })
+        .collect()
+}
+
+fn dt_of_inline(t: &InlineTable) -> Vec<(String, DT)> {
+    t.iter()
+        .map(|(k, v)| {
+            let v = match v {
+                Value::InlineTable(c) if c.is_dotted() => DT::Dotted(dt_of_inline(c)),
+                Value::InlineTable(c) => DT::Own(dt_of_inline(c)),
+                other => DT::Leaf(other.as_integer().unwrap_or(i64::MIN)),
+            };
+            (k.to_string(), v)
+        })
+        .collect()
+}
+
+/// the reference: sort this level, then every dotted child; `rev` = descending keys
+fn dt_sorted(e: &[(String, DT)], rev: bool) -> Vec<(String, DT)> {
+    let mut v: Vec<(String, DT)> = e
+        .iter()
+        .map(|(k, c)| {
+            let c = match c {
+                DT::Dotted(c) => DT::Dotted(dt_sorted(c, rev)),
+                other => other.clone(),
+            };
+            (k.clone(), c)
+        })
+        .collect();
+    v.sort_by(|a, b| if rev { b.0.cmp(&a.0) } else { a.0.cmp(&b.0) });
+    v
+}
+
+impl C16 {
+    fn run_sort_dotted(&mut self, ctx: &mut Ctx, rng: &mut Rng) {
+        let mut counter = 0;
+        let tree = gen_dt(rng, 0, &mut counter);
+        ctx.set_input(&format!("sort through dotted children: {tree:?}"));
+        ctx.nontrivial(hash_bytes(format!("{tree:?}").as_bytes()));
+        ctx.count(&format!("sort-dotted/top-level-entries-{}", tree.len()));
+        let r = guarded(|| {
+            let mut out: Vec<(&'static str, Vec<(String, DT)>, bool)> = Vec::new();
+            let mut t = dt_table(&tree, false);
+            t.sort_values();
+            out.push(("Table::sort_values", dt_of_table(&t), false));
+            let mut t = dt_table(&tree, false);
+            t.sort_values_by(|k1, _, k2, _| k1.get().cmp(k2.get()));
+            out.push(("Table::sort_values_by", dt_of_table(&t), false));
+            let mut t = dt_table(&tree, false);
+            t.sort_values_by(|k1, _, k2, _| k2.get().cmp(k1.get()));
+            out.push(("Table::sort_values_by (descending)", dt_of_table(&t), true));
+            let mut t = dt_inline(&tree, false);
+            t.sort_values();
+            out.push(("InlineTable::sort_values", dt_of_inline(&t), false));
+            let mut t = dt_inline(&tree, false);
+            t.sort_values_by(|k1, _, k2, _| k1.get().cmp(k2.get()));
+            out.push(("InlineTable::sort_values_by", dt_of_inline(&t), false));
+            let mut t = dt_inline(&tree, false);
+            t.sort_values_by(|k1, _, k2, _| k2.get().cmp(k1.get()));
+            out.push(("InlineTable::sort_values_by (descending)", dt_of_inline(&t), true));
+            // through the shared view
+            let mut t = dt_table(&tree, false);
+            (&mut t as &mut dyn TableLike).sort_values();
+            out.push(("dyn TableLike(Table)::sort_values", dt_of_table(&t), false));
+            let mut t = dt_inline(&tree, false);
+            (&mut t as &mut dyn TableLike).sort_values();
+            out.push(("dyn TableLike(InlineTable)::sort_values", dt_of_inline(&t), false));
+            out
+        });
+        match r {
+            Err((loc, msg)) => ctx.violation(&format!("panic:{}", crate::short_loc(&loc)), format!("sorting panicked at {loc}: {msg}")),
+            Ok(out) => {
+                for (what, got, rev) in out {
+                    ctx.count("observations");
+                    let want = dt_sorted(&tree, rev);
+                    if got != want {
+                        ctx.violation(&format!("state-differs:{what}:dotted-children"), format!("{what} on {tree:?} leaves {got:?}; sorting every level that belongs to the table's own key/value pairs gives {want:?}"));
+                        return;
+                    }
+                }
+            }
+        }
+    }
+}
+
 impl Check for C16 {
     fn id(&self) -> &'static str {
         "C16"
@@ -1401,6 +1602,7 @@ impl Check for C16 {
             ("toml::Map".into(), 12_000 * k),
             ("Array".into(), 8_000 * k),
             ("ArrayOfTables".into(), 6_000 * k),
+            ("sort-dotted".into(), 4_000 * k),
         ]
     }
     fn run(&mut self, ctx: &mut Ctx, workload: &str, _index: u64, rng: &mut Rng) {
@@ -1413,6 +1615,7 @@ impl Check for C16 {
             "toml::Map" => self.run_keyed(ctx, rng, Kind::Map),
             "Array" => self.run_array(ctx, rng),
             "ArrayOfTables" => self.run_aot(ctx, rng),
+            "sort-dotted" => self.run_sort_dotted(ctx, rng),
             other => ctx.inconclusive(format!("unknown workload {other}")),
         }
     }
